@@ -502,8 +502,15 @@ where
             self.cached = None;
             return;
         }
-        // matrix of weighted model function values
-        let Phi_w = self.model.eval().ok().map(|Phi| &self.weights * Phi);
+        // matrix of weighted model function values. A matrix with non-finite
+        // elements cannot be decomposed (the SVD panics or does not terminate),
+        // so it is treated like a failed model evaluation.
+        let Phi_w = self
+            .model
+            .eval()
+            .ok()
+            .map(|Phi| &self.weights * Phi)
+            .filter(|Phi_w| Phi_w.iter().all(|elem| elem.is_finite()));
 
         // calculate the svd
         let svd_epsilon = self.svd_epsilon;
@@ -641,8 +648,15 @@ where
             self.cached = None;
             return;
         }
-        // matrix of weighted model function values
-        let Phi_w = self.model.eval().ok().map(|Phi| &self.weights * Phi);
+        // matrix of weighted model function values. A matrix with non-finite
+        // elements cannot be decomposed (the SVD panics or does not terminate),
+        // so it is treated like a failed model evaluation.
+        let Phi_w = self
+            .model
+            .eval()
+            .ok()
+            .map(|Phi| &self.weights * Phi)
+            .filter(|Phi_w| Phi_w.iter().all(|elem| elem.is_finite()));
 
         // calculate the svd
         let svd_epsilon = self.svd_epsilon;
